@@ -150,7 +150,8 @@ def _hashable(value):
     if isinstance(value, (list, tuple)):
         return tuple(_hashable(v) for v in value)
     if isinstance(value, dict):
-        return tuple((k, _hashable(v)) for k, v in value.items())
+        # dicts compare equal regardless of key order, so their hash must not depend on it either
+        return frozenset((k, _hashable(v)) for k, v in value.items())
     return value
 
 
